@@ -238,6 +238,9 @@ class Program:
         for req in REQUIRED_MODULES:
             if req not in self.modules:
                 raise AnchorMissing("module nptdms.%s" % req)
+        # performance idioms (prepared struct objects, hoisted bound methods) are read as the plain calls they stand for
+        from .desugar import desugar
+        self.desugared = sorted(desugar({name: m.tree for name, m in self.modules.items()}))
 
     def _index(self):
         for mod in self.modules.values():
@@ -276,6 +279,8 @@ class Program:
                 elif isinstance(node, ast.FunctionDef):
                     fi = FuncInfo(mod, node)
                     self.functions[fi.qual] = fi
+        for name in getattr(self, "desugared", ()):
+            self.modules[name].imports.setdefault("struct", "struct")
         # resolve bases
         for ci in self.classes.values():
             for b in ci.base_exprs:
@@ -327,6 +332,11 @@ class Program:
         cands = [f for f in self.functions.values() if f.cls is None and same(f.name)]
         if len(cands) == 1:
             return cands[0]
+        if not cands:
+            # a module-level function that was made a (static) method: the one method of that name in the package
+            cands = [f for f in self.functions.values() if f.cls is not None and same(f.name)]
+            if len(cands) == 1:
+                return cands[0]
         raise AnchorMissing("function %s" % qual)
 
     def has_func(self, qual):
@@ -476,6 +486,11 @@ class Program:
             if r and r[0] == "classattr":
                 return self.fold(r[1], r[2].module, None, depth + 1)
             raise ValueError("attr")
+        if isinstance(expr, ast.Call) and isinstance(expr.func, ast.Attribute) and expr.func.attr in ("bit_length",) and not expr.args and not expr.keywords:
+            v = self.fold(expr.func.value, mod, env, depth + 1)
+            if isinstance(v, int) and not isinstance(v, bool):
+                return v.bit_length()          # pure method of a constant integer
+            raise ValueError("bit_length of a non-integer")
         if isinstance(expr, ast.Call):
             fn = call_name(expr)
             if fn in ("float", "int") and len(expr.args) == 1 and not expr.keywords:
